@@ -22,6 +22,8 @@ def run(ctx):
     else:
         n_prog = 1200 if ctx.tier == "thorough" else 120
         cases = T.random_traces(ctx, spec, n_prog)
+        for c in T.CORPUS:
+            cases += T.trace_program(ctx, spec, traps, c["kernels"], [c["args"]])
     items = []   # (case dict, what, canonical path)
     for c in cases:
         if c.path is None:
